@@ -84,7 +84,13 @@ const (
 	bGlobal
 )
 
-type cell struct{ v ugo.Object }
+type cell struct {
+	v ugo.Object
+	// uninit marks a catch identifier whose try body was left by return/break/continue:
+	// the documents say it is undefined; reads are counted (Flags) because the
+	// implementation is known to read a stale slot there.
+	uninit bool
+}
 
 type env struct {
 	name   string
@@ -103,7 +109,7 @@ func (e *env) lookup(name string) *env {
 }
 
 func (e *env) bind(name string, v ugo.Object) *env {
-	return &env{name: name, kind: bLocal, cell: &cell{v}, parent: e}
+	return &env{name: name, kind: bLocal, cell: &cell{v: v}, parent: e}
 }
 
 // Module describes one importable module for the reference run.
@@ -132,6 +138,7 @@ type Interp struct {
 	ImportsExec   map[string]int
 	ImportSites   map[string]int
 	Features      map[string]int
+	Flags         map[string]int
 }
 
 type ctlKind int
@@ -175,6 +182,7 @@ func (in *Interp) Run(file *parser.File, args []ugo.Object) (ret ugo.Object, err
 	if in.Features == nil {
 		in.Features = map[string]int{}
 	}
+	in.Flags = map[string]int{}
 	return in.runTop(file.Stmts, args, true)
 }
 
@@ -427,6 +435,9 @@ func (in *Interp) execTry(n *parser.TryStmt, e *env) (completion, error) {
 	if n.Catch != nil {
 		if n.Catch.Ident != nil {
 			ce = ce.bind(n.Catch.Ident.Name, ugo.Undefined)
+			if err == nil && c.kind != cNormal {
+				ce.cell.uninit = true
+			}
 		}
 		if th, ok := err.(*Thrown); ok {
 			in.feat("catch-entered")
@@ -756,6 +767,9 @@ func (in *Interp) evalIdent(n *parser.Ident, e *env) (ugo.Object, error) {
 				v = ugo.Undefined
 			}
 			return v, nil
+		}
+		if b.cell.uninit {
+			in.Flags["catch-var-read-after-jump-out-of-try"]++
 		}
 		return b.cell.v, nil
 	}
